@@ -8,7 +8,8 @@ F_CP = 'atsim/potentials/config/_config_parser.py'
 F_POT = 'atsim/potentials/tools/potable/__init__.py'
 F_Q = 'atsim/potentials/tools/potable/_query_actions.py'
 import contracts.overrides as OVc
-FUNCTIONS = [(F_CP, 'ConfigParser._init_config_parser')]
+import contracts.rawparser as RPc
+FUNCTIONS = [(F_CP, 'ConfigParser._init_config_parser'), (F_CP, '_RawConfigParser.has_option')]
 
 def lemmas():
     out = []
@@ -39,8 +40,6 @@ def lemmas():
     L('steps-keep-the-parser-well-formed', [O.present(S0, o)], O.wf(S1))
     # keys match irrespective of embedded whitespace: membership (has_option), storage and strict-duplicate test use one normal form
     out.append(S('C14', F_CP, '_RawConfigParser.optionxform', 'one-normal-form', ["option = option.strip().replace(' ', '').replace('\\t', '')"]))
-    out.append(S('C14', F_CP, '_RawConfigParser.has_option', 'membership-on-the-normal-form-of-own-keys',
-                 ['option = self.optionxform(option)', 'return option in self._sections[section]'], forbidden=['in self._defaults\n return option in self._sections']))
     out.append(S('C14', F_CP, '_ConfigParserDict._key_transform', 'storage-normal-form', ["k = k.strip().replace(' ', '')", "k = k.replace('\\t', '')", 'return k']))
     for m in ('__setitem__', '__getitem__', '__delitem__'):
         out.append(S('C14', F_CP, '_ConfigParserDict.' + m, 'uses-the-normal-form', ['key = self._key_transform(key)']))
